@@ -39,7 +39,7 @@ func genNlCase(t *rapid.T) nlCase {
 	c.Ops = append(c.Ops, nlOp{K: "dial"})
 	nsess = 1
 	for len(c.Ops) < nops {
-		k := rapid.SampledFrom([]string{"dial", "open", "open", "cwrite", "cwrite", "cwrite", "accept", "accept", "sread", "sread", "swrite", "cread", "sclose", "cclose", "lclose", "sdeadline", "hog", "unhog"}).Draw(t, "k")
+		k := rapid.SampledFrom([]string{"dial", "open", "open", "cwrite", "cwrite", "cwrite", "accept", "accept", "sread", "sread", "swrite", "cread", "sclose", "cclose", "lclose", "sdeadline", "swaitread", "hog", "unhog"}).Draw(t, "k")
 		op := nlOp{K: k}
 		switch k {
 		case "dial":
@@ -441,6 +441,66 @@ func nlRun(c nlCase, r *runCtx) {
 			st := streams[op.S]
 			st.cs.Close()
 			st.cClosed = true
+		case "swaitread":
+			// a read with the deadline cleared (possibly after earlier reads under a deadline) waits for data that is written
+			// a little later: it returns that data, it neither times out nor returns empty-handed
+			if op.S >= len(streams) {
+				continue
+			}
+			st := streams[op.S]
+			if st.conn == nil || st.sClosed || st.cClosed || lnClosed || st.c2sFlushed != st.c2sGot {
+				continue
+			}
+			n := op.N
+			if n < 1 {
+				n = 1
+			}
+			if n > 4096 {
+				n = 4096
+			}
+			data := payload(st, 0, st.c2sFlushed, n)
+			st.conn.SetReadDeadline(time.Time{})
+			wres := make(chan error, 1)
+			go func() {
+				time.Sleep(20 * time.Millisecond)
+				k, err := st.cs.Write(data)
+				if err == nil && k != n {
+					err = fmt.Errorf("short write %d of %d", k, n)
+				}
+				wres <- err
+			}()
+			type rres struct {
+				k   int
+				err error
+				buf []byte
+			}
+			rch := make(chan rres, 1)
+			t0 := time.Now()
+			go func() {
+				buf := make([]byte, n)
+				k, err := st.conn.Read(buf)
+				rch <- rres{k, err, buf}
+			}()
+			if werr := <-wres; werr != nil {
+				r.Violf("op %d: client Write(%d) on an open stream failed: %v", oi, n, werr)
+				return
+			}
+			st.c2sFlushed += n
+			select {
+			case rr := <-rch:
+				if rr.err != nil || rr.k < 1 || rr.k > n {
+					r.Violf("op %d: conn.Read with the deadline cleared, %d bytes written 20 ms later, returned (%d, %v) after %v", oi, n, rr.k, rr.err, time.Since(t0))
+					return
+				}
+				if !checkBytes(st, 0, st.c2sGot, rr.buf[:rr.k]) {
+					return
+				}
+				st.c2sGot += rr.k
+				r.Label("read-without-deadline-waited")
+			case <-time.After(e2Stall):
+				r.Violf("op %d: conn.Read with the deadline cleared is still blocked %v after %d bytes were written", oi, e2Stall, n)
+				return
+			}
 		case "sdeadline":
 			// zero-length read
 			if op.S >= len(streams) || streams[op.S].conn == nil || streams[op.S].sClosed {
